@@ -72,6 +72,10 @@ def main():
             if h1 != h2:
                 index["differences"].append(dict(meta, llvm=h1, c=h2))
                 prob, fns = D.generate_functions(tpl, fm, ("evaluate",))
+                if rot(fns[0]) == fns[0]:
+                    # nothing in this kernel is re-associated by the C printer: not K-C06-1
+                    index.setdefault("unexplained", []).append(dict(meta, llvm=h1, c=h2))
+                    continue
                 defs.append(f"Definition r{len(defs)} := {D.coq_function(rot(fns[0]))}.")
                 names = list(prob.formats.keys())
                 raws = {n: S.raw(S.build(fm[n], v["dims"], v["entries"])) for n, v in ins.items()}
